@@ -8,7 +8,7 @@
    the correspondence run); the *_float_free statements carry no hypothesis. *)
 From Coq Require Import List ZArith.
 Require Import Tok TokGrammar TokGrammarProof CborSpec CborEnc CborDec CborParse CborRoundtrip JsonEnc JsonDec JsonParse
-               JsonNumProof JsonEncProof EncAccept Pump TranscodeProof.
+               JsonNumProof JsonEncProof EncAccept Pump TranscodeProof PumpStream.
 Import ListNotations.
 Open Scope Z_scope.
 
@@ -83,6 +83,36 @@ Theorem C10_cbor_to_cbor_error_iff : forall c bs,
   pump_c2c c bs = PumpErr <->
   (exists e, parse_item c bs = PErr e) \/ (exists n rest, parse_item c bs = POk n rest /\ ~ wf_keys key_cbor n).
 Proof. exact pump_c2c_err_iff. Qed.
+
+(* ---- streams: one decoder and one encoder, Reset before each document (PumpStream.v) ------------------------
+   [pump_many pump k bs]: k successive documents, each pumped from what the earlier calls left unread (Reset makes
+   the reused decoder / encoder a fresh one: Reuse.v, C17).  A stream of documents each of which transcodes on its
+   own transcodes document by document to the same outputs, each call consuming exactly its own document.  JSON
+   documents must be self-delimiting (anything but a bare number) or be followed by a terminator — "1" then "2" is
+   the document 12 (C17's caveat; kernel-evaluated below). *)
+Theorem C10_cbor_stream_to_json : forall sh o c (docs : list (bytes * bytes)) tail,
+  Forall (fun d => pump_c2j sh o c (fst d) = PumpOk (snd d) []) docs ->
+  pump_many (pump_c2j sh o c) (length docs) (concat (map fst docs) ++ tail) = Some (map snd docs, tail).
+Proof. exact cbor_stream_to_json. Qed.
+Theorem C10_cbor_stream_to_cbor : forall c (docs : list (bytes * bytes)) tail,
+  Forall (fun d => pump_c2c c (fst d) = PumpOk (snd d) []) docs ->
+  pump_many (pump_c2c c) (length docs) (concat (map fst docs) ++ tail) = Some (map snd docs, tail).
+Proof. exact cbor_stream_to_cbor. Qed.
+Theorem C10_json_stream_to_cbor : forall (docs : list (bytes * bytes)) tail,
+  Forall (fun d => self_delimiting (fst d) /\ pump_j2c (fst d) = PumpOk (snd d) []) docs ->
+  pump_many pump_j2c (length docs) (concat (map fst docs) ++ tail) = Some (map snd docs, tail).
+Proof. exact json_stream_to_cbor. Qed.
+Theorem C10_json_stream_to_json : forall sh o (docs : list (bytes * bytes)) tail,
+  Forall (fun d => self_delimiting (fst d) /\ pump_j2j sh o (fst d) = PumpOk (snd d) []) docs ->
+  pump_many (pump_j2j sh o) (length docs) (concat (map fst docs) ++ tail) = Some (map snd docs, tail).
+Proof. exact json_stream_to_json. Qed.
+Print Assumptions C10_json_stream_to_json.
+Example C10_stream_examples :
+  pump_many (pump_c2j (fun _ => ([], 0)) {| jline := None; jindent := [] |} false) 3 [1; 130; 1; 2; 97; 120; 255] =
+    Some ([[49]; [91; 49; 44; 50; 93]; [34; 120; 34]], [255]) /\
+  pump_many pump_j2c 2 [91; 49; 93; 34; 120; 34; 125] = Some ([[159; 1; 255]; [97; 120]], [125]) /\
+  pump_many pump_j2c 2 [49; 50] = None.
+Proof. vm_compute. repeat split; reflexivity. Qed.
 
 (* sanity (kernel-evaluated) *)
 Example C10_j2c_example : pump_j2c [91; 49; 44; 32; 34; 120; 34; 93; 32] = PumpOk [159; 1; 97; 120; 255] [32].
